@@ -437,7 +437,13 @@ lemma("rep_mmul", [a, b, n], z3.Implies(cols(a) == rows(b), mmul(rep(a, n), rep(
 lemma("rep_mmul3", [a, b, c, n], z3.Implies(cols(a) == rows(b), mmul(rep(a, n), mmul(rep(b, n), c)) == mmul(rep(mmul(a, b), n), c)),
       [mmul(rep(a, n), mmul(rep(b, n), c))], ML + "blockDiagonal_mul + assoc")
 lemma("diagm_mmul", [a, b], z3.Implies(rows(a) == rows(b), mmul(diagm(a), diagm(b)) == diagm(vmul(a, b))), [mmul(diagm(a), diagm(b))], ML + "Matrix.diagonal_mul_diagonal")
+lemma("ksum_def", [a, b], z3.Implies(z3.And(sq(a), sq(b)), ksum(a, b) == madd(kron(a, eye(rows(b))), kron(eye(rows(a)), b))), [ksum(a, b)], "definition of the Kronecker sum")
+lemma("kron_madd_l", [a, b, c], kron(madd(a, b), c) == madd(kron(a, c), kron(b, c)), [kron(madd(a, b), c)], ML + "Matrix.add_kronecker")
+lemma("kron_madd_r", [a, b, c], kron(a, madd(b, c)) == madd(kron(a, b), kron(a, c)), [kron(a, madd(b, c))], ML + "Matrix.kronecker_add")
+lemma("rep_2", [a], rep(a, 2) == bd(a, a), [rep(a, 2)], "two copies")
+lemma("rep_3", [a], rep(a, 3) == bd(a, bd(a, a)), [rep(a, 3)], "three copies")
 lemma("eye_kron", [n, m], kron(eye(n), eye(m)) == eye(n * m), [kron(eye(n), eye(m))], ML + "Matrix.one_kronecker_one")
+lemma("eye_kron_nested", [n, m, a], kron(eye(n), kron(eye(m), a)) == kron(eye(n * m), a), [kron(eye(n), kron(eye(m), a))], ML + "one_kronecker_one + kronecker_assoc")
 lemma("eye_bd", [n, m], bd(eye(n), eye(m)) == eye(n + m), [bd(eye(n), eye(m))], ML + "fromBlocks_one")
 lemma("eye_rep", [n, m], z3.Implies(m >= 0, rep(eye(n), m) == eye(m * n)), [rep(eye(n), m)], ML + "blockDiagonal_one")
 lemma("diagm_ones", [n], diagm(ones(n)) == eye(n), [diagm(ones(n))], ML + "Matrix.diagonal_one")
